@@ -463,6 +463,14 @@ fn gen_case(rng: &mut Rng, idx: u64, thorough: bool) -> Case {
         let cmd = if rng.chance(1, 2) { "repair" } else { "convert" };
         case.stages.push(gen_stage(rng, cmd, npool, heavy, total, i + 1, thorough));
     }
+    // one case in three: the tree holds an older file of the same name as the archive being written, below a
+    // directory of the same name as the one it is written to (…/w/<archive name>): an input like any other
+    if rng.chance(1, 3) {
+        let p = format!("{}/w/{}", case.dirs[0], case.stages[0].out);
+        if !case.files.iter().any(|f| f.path == p) {
+            case.files.push(FileSpec { path: p, size: rng.range(1, 700), class: rng.below(5) as u8, seed: rng.next_u64(), link: None });
+        }
+    }
     case
 }
 
